@@ -376,6 +376,13 @@ access(all) fun main(): Int { %s }`, bad)}
 import Lib2 from 0x2
 access(all) fun main(): Int { let ss = Lib2.shapes(%d); let b = ss[1] as! Lib.Big; let c = ss[%d] as! Lib2.Circle; return b.f2[%d] + c.r }`, n, n%3, n%4)}
 	}},
+	{"ranges-small-ints", func(r *rand.Rand) prog.Step {
+		ty := []string{"Int", "Int8", "Int16", "Int32", "Int64", "Int128", "Int256", "UInt", "UInt8", "UInt16", "UInt32", "UInt64", "UInt128", "UInt256", "Word8", "Word16", "Word32", "Word64"}[r.Intn(18)]
+		n := 3 + r.Intn(40)
+		return prog.Step{Kind: prog.Script, Source: fmt.Sprintf(`import Lib3 from 0x3
+access(all) fun main(): [AnyStruct] { var t: %[1]s = 0; let rg = InclusiveRange(%[1]s(1), %[1]s(%[2]d)); for i in rg { t = t + i }; let down = InclusiveRange(%[1]s(2), %[1]s(%[2]d), step: %[1]s(3)); var c = 0; for j in down { c = c + 1 }
+ return [t, c, rg.contains(%[1]s(%[3]d)), down.contains(%[1]s(4)), Lib3.fib(%[3]d)] }`, ty, n, n/2)}
+	}},
 	{"enum-switch", func(r *rand.Rand) prog.Step {
 		n := r.Intn(200)
 		return prog.Step{Kind: prog.Script, Source: fmt.Sprintf(`import Lib from 0x1
